@@ -108,11 +108,11 @@ NOTES={
  'C15-1':"first evaluation inconclusive (anchor was the edited statement); detected after fall-back anchors were added",
 'C01-4':"missed at first; detected after the constant-groundwater day harness (C01.gwday.*) was added",
  'C04-4':"first inconclusive (the separate reload region reads a new variable); detected by the year-change-day harness once harness files were split per region and a failed region no longer takes the whole check down",
- 'C05-4':"MISSED: the text value is built with strings.Join over a conditionally appended slice (not modelled); C05's field-count harness binds text columns to separator-free values only",
+ 'C05-4':"missed at first (strings.Join over a conditionally appended slice not modelled, no obligation on text values); detected after both were added (C05.text.*); the water contents are fixed in that harness so that the model replays natively",
  'C10-3':"detected by the fertiliser file reader harness (C10F, included in C10)",
  'C10-4':"no longer a valid seed: its cooperating site was repaired (fix 3e8be87); on the current tree the demo passes with the patch applied",
  'C11-3':"INCONCLUSIVE: append of a symbolic-length slice through an alias is not modelled; the new obligations C11.dispatch.failed_run_listed_exactly_once would decide it",
- 'C11-4':"MISSED: the day loop of Run is not encoded as a loop (only regions of its body); termination is decided for LangTag and the dispatcher only",
+ 'C11-4':"missed at first (the day loop of Run was not encoded as a loop); detected after the loop header was lifted with its body replaced by an iteration counter (header_of)",
  'C16-3':"detected by the rotation part of Input on token files (C10I, included in C16)",
  'C02-3':"detected by C02 (leaching depth at the profile bottom is one of the nmove instances)",
  'C02-4':"not detected by C02 (the kernels are unchanged); detected by C01.substeps.* (sub-step count x length = 1 day)",
